@@ -253,6 +253,17 @@ def run_check(prop, tier):
     want_c01 = prop == "C01"
     r = rng("expr")          # C01 and C12 look at the same generated population
     broken = ck.build_and_audit(["Amoco.Props.%s" % prop, "drv_expr"])
+    if not quick and not broken:
+        # independent kernel re-check of the compiled property modules and of the proof modules they rest on
+        mods = ["Amoco.Props.%s" % prop, "Amoco.Proofs.ExprComp", "Amoco.Proofs.ExprWidth", "Amoco.Proofs.ExprEvalWidth"]
+        if want_c01:
+            mods += ["Amoco.Proofs.ExprBits", "Amoco.Proofs.ExprArith", "Amoco.Proofs.ExprCst", "Amoco.Proofs.ExprCompSem",
+                     "Amoco.Proofs.ExprEvalSound"]
+        p = subprocess.run(["lake", "env", "leanchecker"] + mods, cwd=LEAN, stdout=subprocess.PIPE, stderr=subprocess.STDOUT,
+                           text=True, timeout=1800)
+        ck.oblige("leanchecker " + " ".join(mods), p.returncode == 0, p.stdout[-1500:])
+        if p.returncode != 0:
+            broken.append("leanchecker failed: " + p.stdout[-1500:])
     drv = Driver("drv_expr")
     R.limit_memory()
     t_budget = (110 if quick else 1500)
@@ -310,6 +321,8 @@ def run_check(prop, tier):
                 refs.append((rho, F.evaluate(script, decl, rho)))
             except Exception:
                 refs.append((rho, None))
+        for rho, rv in refs:
+            ck.count("oracle.judged" if rv is not None else "oracle.not-judged")
         viol = False
         if want_c01 and action[0] == "simplify" and action[1] == "widening":
             # widening produces vec / vecw (C19's fragment): only widths are judged on it (C12)
@@ -408,6 +421,18 @@ def run_check(prop, tier):
                         ck.count("lean-ideal.compared")
                         if iv not in rv[1]:
                             ck.count("lean-ideal.mismatch")
+                            if not v and cx > 0:
+                                m2 = drv.ask({"op": "expr.run", "script": script, "action": a, "cplx": cx, "topeq": False,
+                                              "ideals": [val]})
+                                if isinstance(m2, list) and m2[0] == "ok" and (m2[4] is None or m2[4][0] in rv[1]):
+                                    ck.report("C01:value:top-hash-equality",
+                                              "with the complexity threshold on, a comparison of two `top` operands is decided by "
+                                              "hash(str)+size equality (script %s, complexity %d: result %s, reference %s)"
+                                              % (json.dumps(script)[:300], cx, real[2] if real[0] == "ok" else real, sorted(rv[1])[:2]),
+                                              "oracle", "Amoco.C01 (apiExp hash-equality shortcut on `top`)",
+                                              case={"script": script, "action": a, "complexity": cx}, real=real, model=m,
+                                              expected=str(sorted(rv[1])[:2]))
+                                    v = True
                             if not v:
                                 corr_broken.append((script, cx, a, real, m, "Lean ideal of the model result %r not among the reference values %r" % (iv, sorted(rv[1])[:2])))
                             break
